@@ -959,9 +959,15 @@ type c04E2E struct {
 	Subject *string `json:"subject"` // forwarded subject header
 }
 
+type c04Res struct {
+	Sub  string `json:"sub,omitempty"`
+	Err  string `json:"err,omitempty"`
+	Kind string `json:"kind,omitempty"`
+}
+
 type c04StepObs struct {
 	Seen []c04Seen `json:"seen"`
-	Res  c04Seen   `json:"res"`
+	Res  c04Res    `json:"res"`
 	Nil  bool      `json:"nil,omitempty"` // (nil, nil)
 	E2E  *c04E2E   `json:"e2e,omitempty"`
 }
@@ -1034,6 +1040,7 @@ func (c *c04Cache) reset() {
 // composite asks is delegated
 type c04Rec struct {
 	inner subjectCreator
+	pos   int
 	cch   *c04Cache
 	log   *[]c04Seen
 }
@@ -1056,7 +1063,7 @@ func c04Pos(a any) int {
 func (r *c04Rec) Execute(ctx heimdall.Context) (*subject.Subject, error) {
 	r.cch.hit = ""
 	sub, err := r.inner.Execute(ctx)
-	s := c04Seen{Pos: c04Pos(r.inner), FB: r.inner.IsFallbackOnErrorAllowed(), Hit: r.cch.hit}
+	s := c04Seen{Pos: r.pos, FB: r.inner.IsFallbackOnErrorAllowed(), Hit: r.cch.hit}
 
 	if err != nil {
 		s.Err, s.Kind = c04ErrKind(err)
@@ -1355,7 +1362,12 @@ func (e *c04Env) run(svc *c04Services, c *c04Case, r *vf.Rand) (obs c04Obs) {
 		wrapped = make(compositeSubjectCreator, len(sc))
 
 		for i, a := range sc {
-			wrapped[i] = &c04Rec{inner: a, cch: svc.cch, log: &log}
+			pos := c04Pos(a)
+			if pos == 999 { // the mechanism does not tell its id: the index in the rule's list has to do
+				pos = i
+			}
+
+			wrapped[i] = &c04Rec{inner: a, pos: pos, cch: svc.cch, log: &log}
 		}
 
 		field.Set(reflect.ValueOf(wrapped))
@@ -1426,7 +1438,7 @@ func (e *c04Env) run(svc *c04Services, c *c04Case, r *vf.Rand) (obs c04Obs) {
 		// through a service the composite's own answer is what its last consulted authenticator answered
 		if so.E2E != nil && len(log) != 0 {
 			last := log[len(log)-1]
-			so.Res = c04Seen{Sub: last.Sub, Err: last.Err, Kind: last.Kind}
+			so.Res = c04Res{Sub: last.Sub, Err: last.Err, Kind: last.Kind}
 		}
 
 		obs.Steps = append(obs.Steps, so)
@@ -1712,7 +1724,7 @@ func c04CoqStep(q c04Req, o c04StepObs) string {
 	switch {
 	case o.Nil:
 	case o.Res.Err != "":
-		res = "(RError " + c04CoqErr(o.Res) + ")"
+		res = "(RError " + c04CoqErr(c04Seen{Err: o.Res.Err, Kind: o.Res.Kind}) + ")"
 	default:
 		res = "(RSubject " + vf.CoqStr(o.Res.Sub) + ")"
 	}
